@@ -4,7 +4,7 @@ From Coq Require Import List String Bool.
 From PV Require Import IC10.Sig Model.Tables Props.C16.
 From PVGen Require Import GenIntrinsics.
 Import ListNotations.
-Open Scope string_scope.
+Local Open Scope string_scope.
 
 Lemma C16_intrinsics_match_sig_refuted :
   forall n, In n intrinsic_exceptions ->
